@@ -9,7 +9,7 @@ CONSTANTS
   MaxMaj = 1000000
   MaxMin = 1000
   MaxForks = 1000
-  MaxTouch = 1000
+  MaxTouch = 0
   AlignedOnly = TRUE
   InFlightReads = FALSE
   CheckProjection = TRUE
